@@ -96,12 +96,16 @@ def main():
         if rc != 0:
             print('cannot apply to /repo', out)
             raise SystemExit(3)
-        for i in range(1, 21):
-            pid = 'C%02d' % i
-            rc, out = sh('./check %s --tier quick' % pid, cwd=VERIF, timeout=300)
+        from concurrent.futures import ThreadPoolExecutor
+
+        def one(pid):
+            rc, out = sh('./check %s --tier quick' % pid, cwd=VERIF, timeout=600)
             fails = [l for l in out.split('\n') if l.startswith('FAIL ')]
             err = [l for l in out.split('\n') if l.startswith('ANALYSIS-ERROR')]
-            results[pid] = dict(rc=rc, fails=[f[:300] for f in fails[:6]], error=(err[0][:300] if err else None))
+            return pid, dict(rc=rc, fails=[f[:300] for f in fails[:6]], error=(err[0][:300] if err else None))
+        with ThreadPoolExecutor(max_workers=10) as ex:
+            for pid, r in ex.map(one, ['C%02d' % i for i in range(1, 21)]):
+                results[pid] = r
     finally:
         sh('git -C %s checkout -- .' % REPO)
     # restore evidence written on the unmodified tree
